@@ -19,7 +19,9 @@ GROUPS = ["strong", "alt", "freebsd", "glibc", "netbsd", "openbsd", "osx", "owl"
           "debian", "fedora"]
 
 CHEAP = {
-    "yescrypt": [b"$y$j5.$c2FsdHNhbHQ", b"$y$/3/$7Dx0/", b"$y$.5/$saltsalt"], "gost_yescrypt": [b"$gy$j5.$c2FsdHNhbHQ", b"$gy$.2/$12345/"],
+    # (the long salts decode to 56 and 64 bytes: PBKDF2's salt-length classes)
+    "yescrypt": [b"$y$j5.$c2FsdHNhbHQ", b"$y$/3/$7Dx0/", b"$y$.5/$saltsalt", b"$y$j5.$" + b"Abcdefgh" * 9 + b"AbC", b"$y$j5.$" + b"Zyxwvuts" * 10 + b"Zyxwv/"],
+    "gost_yescrypt": [b"$gy$j5.$c2FsdHNhbHQ", b"$gy$.2/$12345/", b"$gy$j5.$" + b"Abcdefgh" * 9 + b"AbC"],
     "scrypt": [b"$7$3/..../....saltsalt", b"$7$2/....0....ab$cd$", b"$7$2/..../...." + b"Salt" * 75, b"$7$2/..../...." + b"x" * 325],
     "bcrypt": [b"$2b$04$abcdefghijklmnopqrstuu"], "bcrypt_y": [b"$2y$04$abcdefghijklmnopqrstuu"],
     "bcrypt_a": [b"$2a$04$abcdefghijklmnopqrstuu"], "bcrypt_x": [b"$2x$04$abcdefghijklmnopqrstuu"],
@@ -32,7 +34,8 @@ CHEAP = {
 }
 PHRASES = [b"short", b"a phrase longer than eight", b"12345678", b"123456789",
            b"\xff\xff\xa3", b"\xff\xa334\xff\xff\xff\xa3345",          # crypt_blowfish's sign-extension collision pairs
-           b"x" * 64, b"block sized " * 10 + b"12345678"]                  # 64 and 128 bytes: hash-core block boundaries
+           b"x" * 64, b"block sized " * 10 + b"12345678",
+           bytes((i * 7 + 33) % 94 + 33 for i in range(200)), bytes((i * 11 + 40) % 94 + 33 for i in range(300))]                  # 64 and 128 bytes: hash-core block boundaries
 
 
 def corpus():
@@ -51,6 +54,8 @@ def selections(seed, tier):
     sels = [("single:" + m, [m]) for m in gen.METHODS]
     sels += [("group:" + g, g) for g in GROUPS]
     sels.append(("all", list(gen.METHODS)))
+    # mixed spellings of the option: a method before a group that does not contain it, and the reverse
+    sels += [("mixed:yescrypt,glibc", "yescrypt,glibc"), ("mixed:glibc,yescrypt", "glibc,yescrypt"), ("mixed:nt,osx,bcrypt", "nt,osx,bcrypt")]
     if tier == "thorough":
         sels += [("without:" + m, [x for x in gen.METHODS if x != m]) for m in gen.METHODS]
         rng = rt.rng_for(seed, PID, "subsets")
@@ -309,7 +314,11 @@ def run(tier):
                           "expand-selected-hashes rejects %s: %s" % (sel, err), None)
             continue
         if isinstance(sel, str):
-            ind = independent_group(sel)
+            # a group name, or a comma list mixing method names and group names (in any order)
+            ind = set()
+            for wd in sel.split(","):
+                ind |= set(independent_group(wd) or [wd])
+            ind = sorted(ind)
             if sorted(en) != ind:
                 acc.violation("%s/group-expansion/%s" % (PID, sel), "script gives %s, hashes.conf says %s" % (sorted(en), ind), None)
         sels.append((name, sorted(en)))
